@@ -73,7 +73,7 @@ def r07_1(ctx: Ctx):
                               f'comparison', fn.loc())
     # positive control: the analysis sees the tolerance comparisons the node rule legitimately uses on digits
     ctl = 0
-    for fn in (e.node_fn, e.numbr_fn):
+    for fn in (e.opt('fwd', 'array_fn'), e.opt('inv', 'array_fn')):
         if fn is None:
             continue
         for n in ast.walk(fn.node):
@@ -238,24 +238,31 @@ def r07_6(ctx: Ctx):
     for f in funcs:
         selfn = f.param_names[0] if f.param_names and f.cls is not None else None
 
-        def mentions_raw(x, tainted) -> bool:
+        def mentions_raw(x, tainted, attrs=None, through_int=False) -> bool:
             # an occurrence outside an int(...) call
-            if isinstance(x, ast.Call) and isinstance(x.func, ast.Name) and x.func.id == 'int':
+            attrs = raw if attrs is None else attrs
+            if not through_int and isinstance(x, ast.Call) and isinstance(x.func, ast.Name) and x.func.id == 'int':
                 return False
             if isinstance(x, ast.Attribute) and isinstance(x.value, ast.Name) and x.value.id == selfn and \
-                    x.attr in raw:
+                    x.attr in attrs:
                 return True
             if isinstance(x, ast.Name) and x.id in tainted:
                 return True
-            return any(mentions_raw(ch, tainted) for ch in ast.iter_child_nodes(x))
-        tainted = set()
-        for _ in range(4):
-            for st in ast.walk(f.node):
-                if isinstance(st, ast.Assign) and mentions_raw(st.value, tainted):
-                    for t in st.targets:
-                        for nm in ast.walk(t):
-                            if isinstance(nm, ast.Name) and isinstance(nm.ctx, ast.Store):
-                                tainted.add(nm.id)
+            return any(mentions_raw(ch, tainted, attrs, through_int) for ch in ast.iter_child_nodes(x))
+
+        def taint_of(attrs, through_int=False):
+            out = set()
+            for _ in range(4):
+                for st in ast.walk(f.node):
+                    if isinstance(st, ast.Assign) and mentions_raw(st.value, out, attrs, through_int):
+                        for t in st.targets:
+                            for nm in ast.walk(t):
+                                if isinstance(nm, ast.Name) and isinstance(nm.ctx, ast.Store):
+                                    out.add(nm.id)
+            return out
+        tainted = taint_of(raw)
+        dim_attrs = {'numberOfFloatVariables'}
+        dim_names = taint_of(dim_attrs, through_int=True)
         for x in ast.walk(f.node):
             base = expo = None
             if isinstance(x, ast.BinOp) and isinstance(x.op, (ast.LShift, ast.Pow)):
@@ -268,6 +275,8 @@ def r07_6(ctx: Ctx):
                         not isinstance(base.value, bool)) or mentions_raw(base, tainted)
             if not int_base:
                 continue
+            if not mentions_raw(expo, dim_names, dim_attrs, True):
+                continue      # grows with the levels of one axis only: at most 50 / N bits, below every integer width
             n += 1
             ctx.check(not mentions_raw(expo, tainted), rid, f.short, f.loc(x),
                       f'{ast.unparse(x)[:40]}: the exponent is a normalised int',
@@ -281,6 +290,8 @@ def r07_6(ctx: Ctx):
 
 
 def check(ctx: Ctx):
+    if C.want(ctx, 'R07.7'):
+        evo.rule_no_shared_state(ctx, 'R07.7')
     if C.want(ctx, 'R07.6'):
         r07_6(ctx)
     if C.want(ctx, 'R07.1'):
